@@ -40,7 +40,7 @@ class MessageContent(Writeable):
                  body: MessageBody) -> None:
         super().__init__()
         self._raw = get_raw(memoryview(data), header._lines, body._lines)
-        self.lines: Final = header.lines + body.lines - 1
+        self.lines: Final = max(header.lines + body.lines - 1, 0)
         self.header: Final = header
         self.body: Final = body
 
